@@ -649,6 +649,33 @@ Section EvalGen.
     - simpl. apply IH; assumption.
   Qed.
 
+  (* the custom-operation expression computes cu_arg (value AND call log), whatever the wrapper nesting *)
+  Lemma eval_gen_cu f : (forall d, String.eqb f (item_name d) = false) ->
+    forall t env x nl depth v,
+      assoc x env = Some v -> assoc f env = None ->
+      eval_se ser env (gen_cu t x f nl depth) = cu_arg ser f t nl (Nat.eqb depth 0) v.
+  Proof.
+    intros Hf. induction t as [nm|t' IH|t' IH]; intros env x nl depth v Hx Hfe.
+    - simpl. destruct (nl || Nat.eqb depth 0); simpl.
+      + rewrite Hx. destruct (is_none v); [reflexivity|]. simpl. rewrite ?Hfe, ?Hx. reflexivity.
+      + rewrite ?Hfe, ?Hx. reflexivity.
+    - assert (Hcomp : eval_se ser env (EComp (item_name depth)
+                         (gen_cu t' (item_name depth) f true (Datatypes.S depth)) x) =
+                      match v with
+                      | PList l => option_map (fun rs => (PList (map fst rs), List.concat (map snd rs)))
+                                              (map_opt (cu_arg ser f t' true false) l)
+                      | _ => None end).
+      { simpl. rewrite Hx. destruct v; try reflexivity. f_equal. apply map_opt_ext. intro a.
+        apply (IH ((item_name depth, a) :: env) (item_name depth) true (Datatypes.S depth) a).
+        - simpl. rewrite String.eqb_refl. reflexivity.
+        - simpl. rewrite Hf. exact Hfe. }
+      simpl gen_cu. simpl cu_arg. destruct (nl || Nat.eqb depth 0).
+      + simpl eval_se. rewrite Hx. simpl andb. destruct (is_none v); [reflexivity|].
+        rewrite <- Hcomp. simpl. rewrite Hx. reflexivity.
+      + simpl andb. rewrite Hcomp. reflexivity.
+    - simpl. apply IH; assumption.
+  Qed.
+
   Lemma ser_arg_unset f t : is_nonnull t = false -> ser_arg ser f t true true PUnset = Some (PUnset, []).
   Proof. destruct t; simpl; intro H; try reflexivity; discriminate. Qed.
 End EvalGen.
